@@ -138,7 +138,15 @@ def readsOfSpec (w : B6.Spec.World.World) : String :=
   let each := sortIds (B6.Spec.World.ids w)
   " ".intercalate per ++ " | " ++ " ".intercalate toks ++ " | each:" ++ idList each
 
-def geomOfView (v : View) (mods : Option (List Id)) : String :=
+/-- `EachModifiedTag`: every recorded plain-tag modification, by id then key -/
+def mtagsText (mods : List (Id Ã— Mods)) : String :=
+  renderList ((sortIds (AMap.keys mods)).flatMap fun id =>
+    sortStrs ((modsOf mods id).map fun e =>
+      match e.2 with
+      | .set v => toString id ++ ":" ++ e.1 ++ "=" ++ valText v
+      | .del => toString id ++ ":" ++ e.1 ++ "-"))
+
+def geomOfView (v : View) (mods : Option (List Id Ã— List (Id Ã— Mods))) : String :=
   let per := allIds.map fun id =>
     match v.find id with
     | some fv => toString id ++ ":" ++ geomText fv
@@ -155,7 +163,7 @@ def geomOfView (v : View) (mods : Option (List Id)) : String :=
   let base := " ".intercalate per ++ " | " ++ " ".intercalate toks ++ " | each:" ++ renderList each
     ++ " | refs:" ++ " ".intercalate refs
   match mods with
-  | some m => base ++ " | mod:" ++ idList (sortIds m)
+  | some m => base ++ " | mod:" ++ idList (sortIds m.1) ++ " | mtags:" ++ mtagsText m.2
   | none => base
 
 /-- parse the per-id part of a `reads` dump back into a spec map (resynchronisation) -/
@@ -214,19 +222,19 @@ def mutate (st : St) (op : Op) (impl : String) (specStep : B6.Spec.World.World â
     if impl == "partial" then (st, .propfail "merged-partially-applied")
     else if impl == m then (st, .ok) else (st, .diff m)
 
-def worldOf (st : St) (name : String) : Option (View Ã— Option (List Id) Ã— Option Nat) :=
+def worldOf (st : St) (name : String) : Option (View Ã— Option (List Id Ã— List (Id Ã— Mods)) Ã— Option Nat) :=
   match st.store with
   | none => none
   | some s =>
     if name == "live" then
-      some (s.live, (s.layers.head?.map fun l => AMap.keys l.feats), none)
+      some (s.live, (s.layers.head?.map fun l => (AMap.keys l.feats, l.mods)), none)
     else if name.startsWith "s" then
       match (sdrop name 1).toNat? with
       | some k =>
         if k â‰¥ 1 âˆ§ k â‰¤ s.layers.length - 1 then
           -- the k-th snapshot froze the k oldest layers
           let ls := s.layers.drop (s.layers.length - k)
-          some (s.snap k, (ls.head?.map fun l => AMap.keys l.feats), some (k - 1))
+          some (s.snap k, (ls.head?.map fun l => (AMap.keys l.feats, l.mods)), some (k - 1))
         else none
       | none => none
     else none
